@@ -168,7 +168,7 @@ Proof.
   assert (E : Val [CFloat 1; CFloat 2; CFloat 2] = Val ([CFloat 1; CFloat 2; CNull] ++ [])).
   { apply H.
     - intros f. cbn. lia.
-    - repeat constructor; try lia. intros [K _]. discriminate.
+    - constructor; [|constructor]. cbn. repeat split; lia.
     - repeat constructor. }
   discriminate E.
 Qed.
